@@ -103,7 +103,7 @@ pub fn meta(id: &str) -> Option<CheckMeta> {
         "C17" => Some(CheckMeta {
             id: "C17",
             level: "exploration",
-            rule: "on raindb's own TmpFileSystem (real files, real flock) 2-6 threads execute generated programs over Open / OpenRetry (keep trying for 25 ms, so that the attempt lands inside another thread's close) / Close / WriteClose (write 40 values so that flushes and compactions are in flight, then close at once) / Destroy / Write (through an owned handle) in 2-8 rounds; all operations of a round are released together by a barrier. A harness-side owner ledger judges every round: while a handle that is not being closed in that round is alive, every open and every destroy_database must fail; when nobody holds the database, at most one of the racing opens succeeds and (absent a racing destroy or close) exactly one does; after every round each owner finds its CURRENT and LOCK files still in place, reads back up to 40 keys acknowledged during its ownership and writes a probe key (failed attempts do not disturb the running instance); a filesystem wrapper stamps every mutating call, and once an open has succeeded no background thread of an earlier instance may still modify the directory (an instance keeps its ownership until it has finished closing); at the end the database opens, holds every acknowledged key, refuses destroy while open and is destroyed after close. Schedule shaping (affects which interleavings occur, never a verdict): half of the cases hold the background thread at compaction.step / flush.before_build / manifest.before_append (once or periodically, 3-16 ms), three in seven delay every mutating filesystem call of a background thread by 0.2-3 ms (a slow disk for background work only), 40 % let WriteClose rewrite nine keys (so that flushed files overlap and table compactions with inline memtable flushes run) and wait for a compaction to be picked before the last writes and the close, OpenRetry keeps trying while some thread is inside a close, and a quarter of the cases end with a structured close race (an owner WriteCloses under those conditions while everybody else keeps trying to open). The 'previous instance silent' rule is judged from the moment the new open acquired the LOCK (reported by the filesystem wrapper), not from its return. Non-trivial = a round with >=2 attempts against a live owner, opens racing with a close, or >=2 racing opens without an owner; distinct by case hash".into(),
+            rule: "on raindb's own TmpFileSystem (real files, real flock) 2-6 threads execute generated programs over Open / OpenRetry (keep trying for 25 ms, so that the attempt lands inside another thread's close) / Close / WriteClose (write 40 values so that flushes and compactions are in flight, then close at once) / Destroy / Write (through an owned handle) in 2-8 rounds; all operations of a round are released together by a barrier. A harness-side owner ledger judges every round: while a handle that is not being closed in that round is alive, every open and every destroy_database must fail; when nobody holds the database, at most one of the racing opens succeeds and (absent a racing destroy or close) exactly one does; after every round each owner finds its CURRENT and LOCK files still in place, reads back up to 40 keys acknowledged during its ownership and writes a probe key (failed attempts do not disturb the running instance); a filesystem wrapper stamps every mutating call, and once an open has succeeded no background thread of an earlier instance may still modify the directory (an instance keeps its ownership until it has finished closing); at the end the database opens, holds every acknowledged key, refuses destroy while open and is destroyed after close. OpenFaulty is an open whose recovery is made to fail (the n-th read-side filesystem call of that thread fails once): it must fail without disturbing a racing or running instance, and a round that contains one is exempt from the 'exactly one racing open succeeds' rule because the failing open holds the lock for a moment; a fifth of the cases end with a structured round in which an existing database is opened by all threads at once and one of the opens is faulty. Schedule shaping (affects which interleavings occur, never a verdict): half of the cases hold the background thread at compaction.step / flush.before_build / manifest.before_append (once or periodically, 3-16 ms), three in seven delay every mutating filesystem call of a background thread by 0.2-3 ms (a slow disk for background work only), 40 % let WriteClose rewrite nine keys (so that flushed files overlap and table compactions with inline memtable flushes run) and wait for a compaction to be picked before the last writes and the close, OpenRetry keeps trying while some thread is inside a close, and a quarter of the cases end with a structured close race (an owner WriteCloses under those conditions while everybody else keeps trying to open). The 'previous instance silent' rule is judged from the moment the new open acquired the LOCK (reported by the filesystem wrapper), not from its return. Non-trivial = a round with >=2 attempts against a live owner, opens racing with a close, or >=2 racing opens without an owner; distinct by case hash".into(),
             assumptions: vec!["uses real files under the system temp directory (removed when the case ends)".into()],
         }),
         "C12" => Some(CheckMeta {
